@@ -267,6 +267,174 @@ Definition psfrag_stmt (s : stmt) : bool :=
 Fixpoint psfrag (p : slist) : bool := match p with SNil => true | SCons s t => psfrag_stmt s && psfrag t end.
 
 
+(* ====================================================================== *)
+(* the semantics with block scopes: declarations and loop variables anywhere *)
+(* ====================================================================== *)
+(* an environment is a list of frames, innermost first; the last one holds the
+   globals.  A block pushes an empty frame and pops it at its end (also when a
+   break leaves it). *)
+Definition frame := list (str * value).
+Definition senv := list frame.
+
+Fixpoint alook (n : str) (f : frame) : option value :=
+  match f with [] => None | (k, v) :: t => if str_eqb k n then Some v else alook n t end.
+Fixpoint slook (n : str) (env : senv) : option value :=
+  match env with
+  | [] => None
+  | f :: r => match alook n f with Some v => Some v | None => slook n r end
+  end.
+(* x := e: a (new) binding in the innermost frame *)
+Definition sdecl (n : str) (v : value) (env : senv) : senv :=
+  match env with [] => [[(n, v)]] | f :: r => ((n, v) :: f) :: r end.
+(* x = e: the innermost frame that has x gets the new value *)
+Fixpoint sassign (n : str) (v : value) (env : senv) : option senv :=
+  match env with
+  | [] => None
+  | f :: r => match alook n f with
+              | Some _ => Some (((n, v) :: f) :: r)
+              | None => option_map (cons f) (sassign n v r)
+              end
+  end.
+
+Definition lv_decl (lv : option str) (env : senv) : senv :=
+  match lv with Some n => sdecl n VNone env | None => env end.
+Definition lv_set (lv : option str) (v : value) (env : senv) : option senv :=
+  match lv with Some n => sassign n v env | None => Some env end.
+(* leaving a block *)
+Definition leave (r : option (senv * bool)) : option (senv * bool) :=
+  match r with Some (env1, br) => Some (tl env1, br) | None => None end.
+
+Fixpoint lx_s (fuel : nat) (s : stmt) (env : senv) {struct fuel} : option (senv * bool) :=
+  match fuel with
+  | O => None
+  | S f =>
+      match s with
+      | SDecl n e => option_map (fun v => (sdecl n v env, false)) (eval_expr (fun x => slook x env) e)
+      | SAssign (EVar n) e =>
+          match eval_expr (fun x => slook x env) e with
+          | Some v => option_map (fun env' => (env', false)) (sassign n v env)
+          | None => None
+          end
+      | SEmpty => Some (env, false)
+      | SBreak => Some (env, true)
+      | SIf c b elifs els => lx_c f (CCons c b elifs) els env
+      | SWhile c b =>
+          match eval_expr (fun x => slook x env) c with
+          | Some (VBool true) =>
+              match leave (lx_l f b ([] :: env)) with
+              | Some (env1, false) => lx_s f (SWhile c b) env1
+              | Some (env1, true) => Some (env1, false)
+              | None => None
+              end
+          | Some (VBool false) => Some (env, false)
+          | _ => None
+          end
+      | SForStep lv start stop step b =>
+          match eval_expr (fun x => slook x env) stop,
+                eval_expr (fun x => slook x env) (match step with OSome e => e | ONoneE => ENum 1 end),
+                eval_expr (fun x => slook x env) (match start with OSome e => e | ONoneE => ENum 0 end) with
+          | Some (VNum vstop), Some (VNum vstep), Some (VNum vstart) =>
+              if PrimFloat.eqb vstep 0 then None
+              else lx_r f lv vstart vstep vstop b (lv_decl lv env)
+          | _, _, _ => None
+          end
+      | SForIter lv t e b =>
+          match t with
+          | TStr | TArr | TMap =>
+              match eval_expr (fun x => slook x env) e with
+              | Some iter => lx_i f lv 0%float iter b (lv_decl lv env)
+              | None => None
+              end
+          | _ => None
+          end
+      | _ => None
+      end
+  end
+with lx_l (fuel : nat) (l : slist) (env : senv) {struct fuel} : option (senv * bool) :=
+  match fuel with
+  | O => None
+  | S f =>
+      match l with
+      | SNil => Some (env, false)
+      | SCons s1 t =>
+          match lx_s f s1 env with
+          | Some (env1, false) => lx_l f t env1
+          | Some (env1, true) => Some (env1, true)
+          | None => None
+          end
+      end
+  end
+with lx_r (fuel : nat) (lv : option str) (idx stp stop : float) (b : slist) (env : senv) {struct fuel} : option (senv * bool) :=
+  match fuel with
+  | O => None
+  | S f =>
+      if going idx stp stop then
+        match lv_set lv (VNum idx) env with
+        | Some env0 =>
+            match leave (lx_l f b ([] :: env0)) with
+            | Some (env1, false) => lx_r f lv (idx + stp)%float stp stop b env1
+            | Some (env1, true) => Some (env1, false)
+            | None => None
+            end
+        | None => None
+        end
+      else Some (env, false)
+  end
+with lx_i (fuel : nat) (lv : option str) (idx : float) (iter : value) (b : slist) (env : senv) {struct fuel} : option (senv * bool) :=
+  match fuel with
+  | O => None
+  | S f =>
+      match iter_next iter idx with
+      | Some (Some v) =>
+          match lv_set lv v env with
+          | Some env0 =>
+              match leave (lx_l f b ([] :: env0)) with
+              | Some (env1, false) => lx_i f lv (idx + 1)%float iter b env1
+              | Some (env1, true) => Some (env1, false)
+              | None => None
+              end
+          | None => None
+          end
+      | Some None => Some (env, false)
+      | None => None
+      end
+  end
+with lx_c (fuel : nat) (l : clist) (els : oslist) (env : senv) {struct fuel} : option (senv * bool) :=
+  match fuel with
+  | O => None
+  | S f =>
+      match l with
+      | CNil => match els with NoElse => Some (env, false) | Else eb => leave (lx_l f eb ([] :: env)) end
+      | CCons c b t =>
+          match eval_expr (fun x => slook x env) c with
+          | Some (VBool true) => leave (lx_l f b ([] :: env))
+          | Some (VBool false) => lx_c f t els env
+          | _ => None
+          end
+      end
+  end.
+
+(* the fragment with locals: declarations and for loops with a loop variable anywhere *)
+Fixpoint lfrag_stmt (s : stmt) : bool :=
+  match s with
+  | SDecl _ e => efrag e
+  | SAssign (EVar _) e => efrag e
+  | SEmpty | SBreak => true
+  | SIf c b elifs els =>
+      efrag c && lfrag_slist b && lfrag_clist elifs && match els with NoElse => true | Else eb => lfrag_slist eb end
+  | SWhile c b => efrag c && lfrag_slist b
+  | SForStep _ start stop step b => ofrag start && efrag stop && ofrag step && lfrag_slist b
+  | SForIter _ t e b => match t with TStr | TArr | TMap => efrag e && lfrag_slist b | _ => false end
+  | _ => false
+  end
+with lfrag_slist (l : slist) : bool :=
+  match l with SNil => true | SCons s t => lfrag_stmt s && lfrag_slist t end
+with lfrag_clist (l : clist) : bool :=
+  match l with CNil => true | CCons c b t => efrag c && lfrag_slist b && lfrag_clist t end.
+
+(* a whole program: the fragment, and no break outside a loop *)
+Definition lpfrag (p : slist) : bool := lfrag_slist p && nb_slist p.
+
 (* ---------- wire: the semantics as an executable, next to the evaluator ---------- *)
 (* the names a program can assign (declarations, assignments, loop variables) *)
 Fixpoint names_stmt (s : stmt) : list str :=
